@@ -268,6 +268,7 @@ pub fn worker(idx: usize) {
         let pairs = j["pairs"].as_bool().unwrap_or(false);
         let path2 = path.clone();
         emit("count");
+        let marker_path = format!("{}/marker-faultx-{}", scratch, idx);
         // everything for one commit runs on one fresh thread: same hash-map orders everywhere
         let r = crate::fresh::on_fresh_thread(move || {
             let scs = scripts(tier);
@@ -284,6 +285,7 @@ pub fn worker(idx: usize) {
                 let alen = if *k == Kind::Write { arg_len_of(sc, &path2, step, ci) } else { 0 };
                 for (mname, mode) in modes_for(*k, alen) {
                     cases += 1;
+                    let _ = std::fs::write(&marker_path, format!("{:<63}\n", format!("call {} {} {}", ci, k.name(), mname)));
                     let f = Fault { call_index: ci as u64, mode };
                     let out = run_case(sc, &path2, step, Some(f), None);
                     *outcomes.entry(format!("{}:{}", k.name(), out.outcome)).or_insert(0) += 1;
@@ -391,7 +393,15 @@ pub fn run(check: &mut Check) {
                     found.push((si, step, x[0].as_u64().unwrap_or(0), x[1].as_str().unwrap_or("").into(), x[2].as_str().unwrap_or("").into(), x[3].as_str().unwrap_or("").into(), x[4].as_str().unwrap_or("").into(), x[5].clone()));
                 }
             }
-            other => errs.push(format!("{} step {}: worker {:?}", scs[si].name, step, other)),
+            Outcome::Crashed { last_marker, status, stderr_tail } => {
+                let m = last_marker.unwrap_or_default();
+                let parts: Vec<&str> = m.split_whitespace().collect();
+                let (call, kind, mode) = if parts.len() >= 4 && parts[0] == "call" { (parts[1].parse().unwrap_or(0), parts[2].to_string(), parts[3].to_string()) } else { (0, "?".to_string(), "?".to_string()) };
+                found.push((si, step, call, kind, mode, "process_death".into(), format!("the process died ({}) while this fault case (or its follow-up transactions) was running; stderr: {}", status, stderr_tail), Value::Null));
+            }
+            Outcome::Timeout { last_marker } => {
+                found.push((si, step, 0, "?".into(), "?".into(), "hang".into(), format!("no answer within the job timeout at {:?}", last_marker), Value::Null));
+            }
         }
     });
     for e in errs {
